@@ -20,6 +20,7 @@ type epoch struct {
 	id      int
 	parents []*MemState
 	conds   []string
+	base    string // allocation watermark for which the entry-style type invariants of memory hold ("" = none)
 }
 
 func (ex *Exec) newEpoch() *epoch {
@@ -62,7 +63,11 @@ func (ex *Exec) memGet(m *MemState, name string) string {
 		if !ex.declaredConst[v] {
 			ex.declaredConst[v] = true
 			ex.emit("(declare-const %s %s)", v, s)
-			ex.initialArrayAxioms(name, v, s, m.ep.id == ex.entryEpoch)
+			base := m.ep.base
+			if m.ep.id == ex.entryEpoch {
+				base = "allocbase"
+			}
+			ex.initialArrayAxioms(name, v, s, base)
 		}
 	} else {
 		// merged epoch: ite over parents
@@ -172,21 +177,22 @@ func (ex *Exec) mergeMem(states []*MemState, conds []string) *MemState {
 }
 
 // initialArrayAxioms states type invariants for never-written arrays of the entry epoch.
-func (ex *Exec) initialArrayAxioms(name, v string, s Sort, entry bool) {
+func (ex *Exec) initialArrayAxioms(name, v string, s Sort, base string) {
+	entry := base != ""
 	switch name {
 	case "M_Slice":
 		ex.emit("(assert (forall ((a Int)) (! (and (>= (slen (select %s a)) 0) (>= (soff (select %s a)) 0) (>= (scap (select %s a)) (slen (select %s a))) (=> (= (sarr (select %s a)) 0) (= (slen (select %s a)) 0))) :pattern ((select %s a)))))", v, v, v, v, v, v, v)
 		if entry {
-			ex.emit("(assert (forall ((a Int)) (! (=> (<= (root a) allocbase) (<= (root (sarr (select %s a))) allocbase)) :pattern ((select %s a)))))", v, v)
+			ex.emit("(assert (forall ((a Int)) (! (=> (<= (root a) %s) (<= (root (sarr (select %s a))) %s)) :pattern ((select %s a)))))", base, v, base, v)
 		}
 	case "M_Ref":
 		ex.umapAxiom(v)
 		if entry {
-			ex.emit("(assert (forall ((a Int)) (! (=> (<= (root a) allocbase) (<= (root (select %s a)) allocbase)) :pattern ((select %s a)))))", v, v)
+			ex.emit("(assert (forall ((a Int)) (! (=> (<= (root a) %s) (<= (root (select %s a)) %s)) :pattern ((select %s a)))))", base, v, base, v)
 		}
 	case "M_Iface":
 		if entry {
-			ex.emit("(assert (forall ((a Int)) (! (=> (<= (root a) allocbase) (<= (root (ival (select %s a))) allocbase)) :pattern ((select %s a)))))", v, v)
+			ex.emit("(assert (forall ((a Int)) (! (=> (<= (root a) %s) (<= (root (ival (select %s a))) %s)) :pattern ((select %s a)))))", base, v, base, v)
 		}
 	case "ML":
 		ex.emit("(assert (forall ((a Int)) (! (>= (select %s a) 0) :pattern ((select %s a)))))", v, v)
@@ -194,7 +200,11 @@ func (ex *Exec) initialArrayAxioms(name, v string, s Sort, entry bool) {
 	}
 	if strings.HasPrefix(name, "MV_") && entry && ex.mapPtrValued[name] {
 		ks := ex.mapKeySort[name]
-		ex.emit("(assert (forall ((m Int) (k %s)) (! (=> (<= (root m) allocbase) (<= (root (select (select %s m) k)) allocbase)) :pattern ((select (select %s m) k)))))", ks, v, v)
+		ex.emit("(assert (forall ((m Int) (k %s)) (! (=> (<= (root m) %s) (<= (root (select (select %s m) k)) %s)) :pattern ((select (select %s m) k)))))", ks, base, v, base, v)
+	}
+	if strings.HasPrefix(name, "MV_") && entry && ex.mapSliceValued[name] {
+		ks := ex.mapKeySort[name]
+		ex.emit("(assert (forall ((m Int) (k %s)) (! (=> (<= (root m) %s) (and (<= (root (sarr (select (select %s m) k))) %s) (>= (slen (select (select %s m) k)) 0) (>= (soff (select (select %s m) k)) 0) (>= (scap (select (select %s m) k)) (slen (select (select %s m) k))))) :pattern ((select (select %s m) k)))))", ks, base, v, base, v, v, v, v, v)
 	}
 	if strings.HasPrefix(name, "MH_") {
 		// nil map has no keys
@@ -299,6 +309,9 @@ func (ex *Exec) mapArrays(mt *types.Map) (has, val string, ks, vs Sort) {
 	ex.mapKeySort[val] = ks
 	if isPointerLike(mt.Elem()) {
 		ex.mapPtrValued[val] = true
+	}
+	if _, isSlice := mt.Elem().Underlying().(*types.Slice); isSlice {
+		ex.mapSliceValued[val] = true
 	}
 	ex.arraySort(has, Sort(fmt.Sprintf("(Array Int (Array %s Bool))", ks)))
 	ex.arraySort(val, Sort(fmt.Sprintf("(Array Int (Array %s %s))", ks, vs)))
